@@ -179,6 +179,9 @@ func (l *Line) Normalize(normalizers tax.Normalizers) {
 	l.Taxes = tax.CleanSet(l.Taxes)
 	l.Discounts = CleanLineDiscounts(l.Discounts)
 	l.Charges = CleanLineCharges(l.Charges)
+	l.Breakdown = dropNilRows(l.Breakdown)
+	l.Substituted = dropNilRows(l.Substituted)
+	l.Notes = dropNilRows(l.Notes)
 	normalizers.Each(l)
 	tax.Normalize(normalizers, l.Identifier)
 	tax.Normalize(normalizers, l.Taxes)
@@ -194,6 +197,7 @@ func (l *Line) Normalize(normalizers tax.Normalizers) {
 func (sl *SubLine) Normalize(normalizers tax.Normalizers) {
 	sl.Discounts = CleanLineDiscounts(sl.Discounts)
 	sl.Charges = CleanLineCharges(sl.Charges)
+	sl.Notes = dropNilRows(sl.Notes)
 	normalizers.Each(sl)
 	tax.Normalize(normalizers, sl.Identifier)
 	tax.Normalize(normalizers, sl.Item)
@@ -202,6 +206,9 @@ func (sl *SubLine) Normalize(normalizers tax.Normalizers) {
 }
 
 func removeLineIncludedTaxes(line *Line, cat cbc.Code) *Line {
+	if line == nil || line.Item == nil || line.Item.Price == nil {
+		return line // nothing to remove taxes from
+	}
 	accuracy := defaultTaxRemovalAccuracy
 	rate := line.Taxes.Get(cat)
 	if rate == nil || rate.Percent == nil {
@@ -231,6 +238,10 @@ func removeSubLinesIncludedTaxes(sls []*SubLine, tc *tax.Combo, exp uint32) []*S
 	}
 	rows := make([]*SubLine, len(sls))
 	for i, sl := range sls {
+		if sl == nil || sl.Item == nil || sl.Item.Price == nil {
+			rows[i] = sl // nothing to remove taxes from
+			continue
+		}
 		sl2 := *sl
 		sl2i := *sl.Item
 		sl2i.AltPrices = nil
@@ -250,6 +261,9 @@ func removeLineDiscountsIncludedTaxes(discounts []*LineDiscount, tc *tax.Combo, 
 	}
 	rows := make([]*LineDiscount, len(discounts))
 	for i, v := range discounts {
+		if v == nil {
+			continue
+		}
 		d := *v
 		d.Amount = d.Amount.Upscale(exp).Remove(*tc.Percent)
 		rows[i] = &d
@@ -263,6 +277,9 @@ func removeLineChargesIncludedTaxes(charges []*LineCharge, tc *tax.Combo, exp ui
 	}
 	rows := make([]*LineCharge, len(charges))
 	for i, v := range charges {
+		if v == nil {
+			continue
+		}
 		d := *v
 		d.Amount = d.Amount.Upscale(exp).Remove(*tc.Percent)
 		rows[i] = &d
